@@ -51,6 +51,7 @@ var metas = map[string]meta{
 	"m2": {name: "f2.dat", mime: "text/x-verif", gz: true},
 	"mt": {ts: oldTs, ttl: "1h"},
 	"mu": {name: "f5.bin", ttl: "1h"},
+	"m3": {name: "f3.bin", mime: "application/x-" + strings.Repeat("v", 286)}, // 300 bytes: too long to be stored
 }
 
 var datas = map[string][]byte{
